@@ -546,6 +546,86 @@ fn history_case(ctx: &mut Ctx, r: &mut Rng, stats: &mut Stats) -> Result<(), Str
 
 // ------------------------------------------------------------------ stale ids
 
+/// A chain of tracks (top -> middle -> leaf, or top -> persisting child) whose handles are dropped one by one, in any order and
+/// at any callback boundary: the top-level track is counted (and nothing beneath it is destroyed) for as long as any track of
+/// the chain is kept - by a handle, or by persisting until its sounds have finished - and its slot is free again afterwards.
+fn chain_case(r: &mut Rng) -> Result<(), String> {
+	let ledger = Arc::new(Ledger::default());
+	let mut rig = Rig::new(RigConfig { sample_rate: 8000, ibs: 16, channels: 2, capacities: Capacities { sub_track_capacity: 1, ..Default::default() } }, MainTrackBuilder::new());
+	let persist_leaf = r.chance(0.4);
+	let depth = if persist_leaf { r.usize_in(2, 3) } else { 3 };
+	let mut hist = vec![format!("chain of {} tracks, the last one {}", depth, if persist_leaf { "persists until its sound finishes" } else { "plain" })];
+	let fxb = |l: &Arc<Ledger>| LEffectB(LEffect { _t: Token::new(l) });
+	let mut handles: Vec<Option<TrackHandle>> = vec![];
+	let top = rig.mgr.add_sub_track(TrackBuilder::new().with_effect(fxb(&ledger))).map_err(|_| "top")?;
+	handles.push(Some(top));
+	for k in 1..depth {
+		let b = TrackBuilder::new().with_effect(fxb(&ledger)).persist_until_sounds_finish(persist_leaf && k == depth - 1);
+		let h = handles[k - 1].as_mut().unwrap().add_sub_track(b).map_err(|_| "nested")?;
+		handles.push(Some(h));
+	}
+	let stop = Arc::new(AtomicBool::new(false));
+	handles[depth - 1].as_mut().unwrap().play(LSoundData(LSound { _t: Token::new(&ledger), stop: stop.clone(), value: 0.1 })).map_err(|_| "play")?;
+	let made = ledger.created.load(Ordering::SeqCst);
+	rig.callback(16);
+	rig.callback(16);
+	let mut order: Vec<usize> = (0..depth).collect();
+	for i in (1..order.len()).rev() {
+		order.swap(i, r.below(i as u64 + 1) as usize);
+	}
+	let mut finished = false;
+	for step in 0..depth + 1 {
+		if step < depth {
+			let k = order[step];
+			handles[k] = None;
+			hist.push(format!("drop handle {}", k));
+		} else if persist_leaf {
+			stop.store(true, Ordering::SeqCst);
+			finished = true;
+			hist.push("the sound finishes".into());
+		} else {
+			break;
+		}
+		let kept = handles.iter().any(|h| h.is_some()) || (persist_leaf && !finished);
+		for c in 0..r.usize_in(1, 3) {
+			rig.callback(16);
+			hist.push("cb".into());
+			let n = rig.mgr.num_sub_tracks();
+			let destroyed = ledger.dropped.load(Ordering::SeqCst);
+			if kept {
+				if n != 1 {
+					return Err(format!("num_sub_tracks() = {} although a track of the chain is still kept (the top-level track and everything beneath it must stay) [{}]", n, hist.join(" ")));
+				}
+				if destroyed != 0 {
+					return Err(format!("{} object(s) of the chain (effects / the sound) were destroyed although a track of the chain is still kept [{}]", destroyed, hist.join(" ")));
+				}
+				if rig.mgr.add_sub_track(TrackBuilder::new()).is_ok() {
+					return Err(format!("a second top-level track was accepted with capacity 1 while the chain's top-level track is alive [{}]", hist.join(" ")));
+				}
+			} else if c >= 2 && n != 0 {
+				return Err(format!("num_sub_tracks() = {} three callbacks after the last track of the chain was released [{}]", n, hist.join(" ")));
+			}
+		}
+	}
+	for _ in 0..4 {
+		rig.callback(16);
+	}
+	if rig.mgr.num_sub_tracks() != 0 {
+		return Err(format!("num_sub_tracks() = {} after the whole chain was released and 4 more callbacks [{}]", rig.mgr.num_sub_tracks(), hist.join(" ")));
+	}
+	let t = rig.mgr.add_sub_track(TrackBuilder::new());
+	if t.is_err() {
+		return Err(format!("the top-level slot is not reusable after the chain was released [{}]", hist.join(" ")));
+	}
+	drop(t);
+	drop(rig);
+	let (c, d, cb) = (ledger.created.load(Ordering::SeqCst), ledger.dropped.load(Ordering::SeqCst), ledger.dropped_in_callback.load(Ordering::SeqCst));
+	if c != made || d != made || cb != 0 {
+		return Err(format!("chain: {} objects created, {} destroyed, {} of them inside an audio callback [{}]", c, d, cb, hist.join(" ")));
+	}
+	Ok(())
+}
+
 fn stale_id_case(r: &mut Rng) -> Result<(), String> {
 	let mut rig = Rig::new(RigConfig { sample_rate: 8000, ibs: 16, channels: 2, capacities: Capacities { sub_track_capacity: 4, send_track_capacity: 1, clock_capacity: 1, modulator_capacity: 1, listener_capacity: 1 } }, MainTrackBuilder::new());
 	let inst = Tween { start_time: StartTime::Immediate, duration: Duration::ZERO, easing: Easing::Linear };
@@ -924,7 +1004,7 @@ pub fn run(ctx: &mut Ctx) {
 			}
 			let mut r = Rng::for_case(ctx.seed, 802, i);
 			ctx.eval();
-			match super::guarded(|| stale_id_case(&mut r)) {
+			match super::guarded(|| stale_id_case(&mut r).and_then(|_| chain_case(&mut r))) {
 				Ok(Ok(())) => ctx.distinct_key(0xC08_0002_0000_0000 | (i % 4)),
 				Ok(Err(e)) => ctx.violation("stale", i, &e, J::Null),
 				Err(p) => ctx.violation("stale", i, &format!("panic: {}", p.first().map(|p| p.sig()).unwrap_or_default()), J::Null),
